@@ -114,7 +114,13 @@ func (h *verifADSHandler) onResponse(r response, onDone func()) ([]string, error
 var verifTypes = [...]ResourceType{{TypeURL: "type.googleapis.com/A", TypeName: "A"}, {TypeURL: "type.googleapis.com/B", TypeName: "B"}}
 var verifNames = [...]string{"x", "y"}
 
-var verifC42Events = 4
+var verifC42Events, verifC42Types, verifC42Names = 4, 2, 2
+
+// one resource type and one name, six events: reaches subscribe / response / unsubscribe / stream restart / subscribe
+func verifH_C42_ads_single() {
+	verifC42Events, verifC42Types, verifC42Names = 6, 1, 1
+	verifH_C42_ads()
+}
 
 // thorough only: five events
 //
@@ -215,21 +221,21 @@ func verifH_C42_ads() {
 		// ---- next event ----
 		switch verifChoice("event", 5) {
 		case 0: // subscribe
-			t, n := verifChoice("type", 2), verifNames[verifChoice("name", 2)]
+			t, n := verifChoice("type", verifC42Types), verifNames[verifChoice("name", verifC42Names)]
 			verifAssume(!subscribed[t][n])
 			subscribed[t][n], known[t] = true, true
 			s.subscribe(verifTypes[t], n)
 			expects = append(expects, expect{typ: t, version: accepted[t], nonce: nonce[t]})
 			verifCover("subscribed")
 		case 1: // unsubscribe
-			t, n := verifChoice("type", 2), verifNames[verifChoice("name", 2)]
+			t, n := verifChoice("type", verifC42Types), verifNames[verifChoice("name", verifC42Names)]
 			verifAssume(subscribed[t][n])
 			delete(subscribed[t], n)
 			s.unsubscribe(verifTypes[t], n)
 			expects = append(expects, expect{typ: t, version: accepted[t], nonce: nonce[t]})
 			verifCover("unsubscribed")
 		case 2: // the server sends a response
-			t := verifChoice("type", 2)
+			t := verifChoice("type", verifC42Types)
 			verifAssume(curStream >= 0 && !verifProcessing && known[t]) // responses for a type never subscribed to are ignored
 			seq++
 			v, nn := "v"+string(rune('0'+seq)), "n"+string(rune('0'+seq))
